@@ -11,14 +11,19 @@ SHARD_TIMEOUT = L.SHARD_TIMEOUT
 FAMILY = ('ldm', 'stm', 'push', 'pop', 'ldm_user', 'stm_user', 'ldm_eret', 'srs', 'rfe')
 RULE = ('lock-step: case = (word from a reference row of LDM/STM IA/IB/DA/DB, PUSH/POP, LDM/STM (user), LDM (exception '
         'return), SRS, RFE in ARM and Thumb; register lists random, single-bit, full, with base/SP/PC in the list), base '
-        'addresses at 0x8, mid-RAM and next to 2^32 (wrap both ways), all privileged modes, valid SPSRs; every register '
+        'addresses at 0x8, mid-RAM and next to 2^32 (wrap both ways), with the protection unit on across the edges of its regions (a middle or last word of the block aborts), all privileged modes, valid SPSRs; every register '
         'and memory byte compared (exact address range = byte-exact memory diff). round-trip: PUSH list ; clobber ; POP '
         'list (and STMDB r!,list ; LDMIA r!,list) on the real CPU must restore every listed register and the base; in the '
         'thorough tier all 2^16 lists are enumerated for the 16-bit-list encodings. non-trivial = a register or memory '
         'changed; distinct = (row, IT position, configuration) or (round-trip encoding pair, list)')
 ASSUMPTIONS = ['vf/ref/sem_mem.py transcribes the block-transfer pseudocode; UNKNOWN values (base in list with write-back, '
                'stored base, registers of an aborted LDM) are not compared']
-CTXS = [('v7-pmsa-r', 'off'), ('v6-pmsa-sec', 'off'), ('v7-vmsa-sec', 'off'), ('v5-pmsa', 'off'), ('v7-vmsa-virt', 'off'), ('v4-pmsa', 'off')]
+CTXS = [('v7-pmsa-r', 'off'), ('v6-pmsa-sec', 'off'), ('v7-vmsa-sec', 'off'), ('v5-pmsa', 'off'), ('v7-vmsa-virt', 'off'), ('v4-pmsa', 'off'),
+        ('v6-pmsa-sec', 'mpu'), ('v7-pmsa-r', 'mpu')]
+# (protection unit on: blocks placed across the edges of the harness's regions - vf/scen.py _program_mpu - so that a word in
+# the MIDDLE or the LAST word of a transfer is the one that aborts: "the specified final value" of the base is then its
+# original value, and nothing listed after the faulting word has been transferred)
+MPU_EDGES = [0x1000, 0x2000, 0x3000, 0x11800, 0x12000, 0x6000, 0x7000]
 BASES = [0x8, 0x10, 0x40, 0x1000, 0x7FC0, 0x11000, 0x11FC0, 0xFFFFF800, 0xFFFFFFC0, 0xFFFFFFF0, 0xFFFFFFF8, 0x0, 0x4]
 
 
@@ -32,6 +37,11 @@ def after(ctx, rng, desc):
     r = ctx.cpu.registers
     if ctx.cfg['arch_version'] >= 7:
         r.sctlr.u = 1
+    if ctx.prot == 'mpu':
+        for n in range(15):
+            if rng.random() < 0.75:
+                r.set(n, (rng.choice(MPU_EDGES) + 4 * rng.randrange(-6, 3)) & 0xFFFFFFFF)
+        desc['regs'] = ['%#x' % r.get(n) for n in range(15)]
 
 
 def plan(tier, seed):
